@@ -13,7 +13,7 @@ EXPL = ('(R-WORDALG/c++) the portable C++ routines are proven against the same s
         'x86-64 and AArch64) each routine writes every byte of its output object on every path to every ret, reads every '
         'byte of each input object on some path and nothing outside, and sets the return register on every path when the '
         'C++ prototype returns the carry/borrow; (R-SIBLING/dispatch) each run-time dispatch pointer selects between two '
-        'routines of identical prototype whose footprints agree. ARMv6-M bodies cannot be analysed here.')
+        'routines of identical prototype whose footprints agree. The ARMv6-M routines are decided too, on the disassembly of the sources after a mechanical divided-to-unified syntax rewrite (thumbconv.py, trusted).')
 
 
 def generic_of(prog_port, f):
@@ -47,8 +47,8 @@ def obj_of(e):
 def run(ctx):
     ctx.explanation = EXPL
     ctx.level = 'other'
-    ctx.assumptions = ['value-level agreement is decided for the x86-64 and AArch64 assembly and the portable C++ code (64- and 32-bit words); the ARMv6-M assembly bodies are not decided',
-                       'ARMv6-M assembly bodies are not analysable in this image (only their C++ side is checked)']
+    ctx.assumptions = ['value-level agreement is decided for the x86-64, AArch64 and ARMv6-M assembly and the portable C++ code (64- and 32-bit words)',
+                       'ARMv6-M: the sources are in pre-UAL Thumb syntax, which clang cannot assemble; they are rewritten to unified syntax by jpv/thumbconv.py (flag-setting forms for low-register data processing, as GNU as defines divided syntax) and the disassembly of the result is interpreted; `mov lo, lo` is treated as leaving the flags unknown, which covers both encodings GNU as may choose; the fused routines are decided up to their call of the C++ reduce trampoline, whose callee FpBase<384>::reduce is decided by R-WORDALG/c++']
     cfgs = ctx.configs()
     ctx.add_extra_unit(os.path.join(bm.VERIF, 'fixtures', 'instantiate_all.cpp'))
     progs = ctx.programs(cfgs)
@@ -62,6 +62,10 @@ def run(ctx):
         wc = cppword.rule_wordalg_cpp(ctx, c, progs[c])
         ctx.floor('R-WORDALG/c++ routine x aliasing instances[%s]' % c, wc, 35)
         wa = asmsem.rule_wordalg(ctx, c, os.path.join(ctx.outdir, 'asm'))
+        from .. import thumbsem
+        wt = thumbsem.rule_wordalg_thumb(ctx, c, os.path.join(ctx.outdir, 'asm'), prog=progs[c])
+        if c == 'm0-asm':
+            ctx.floor('R-WORDALG routine x aliasing instances[%s]' % c, wt, 18)
         if c == 'x64-asm':
             ctx.floor('R-WORDALG routine x aliasing instances[%s]' % c, wa, 25)
     total_specs = 0
